@@ -3,6 +3,7 @@ package vc
 // Symbolic execution of one go/ssa function (naive form) into verification conditions.
 
 import (
+	"os"
 	"fmt"
 	"go/constant"
 	"go/token"
@@ -88,7 +89,19 @@ type loopInfo struct {
 	decrName string
 }
 
+// inlineRet is one return of an inlined callee.
+type inlineRet struct {
+	guard string
+	vals  []string
+	st    *State
+}
+
 type FuncGen struct {
+	inlineCount int
+	cellPrefix  string       // distinguishes the cells of an inlined callee from the caller's
+	inlineDepth int          // > 0 while executing an inlined callee
+	inlineRets  *[]inlineRet // where an inlined callee records its returns
+	baseGuard   string       // reachability of an inlined callee's entry block
 	paramAlias map[string]*ssa.Parameter // recorded parameter names that were renamed (see applyRecordedNames)
 	rng map[ssa.Value][2]*big.Int // static intervals of integer values (see rangeOf)
 	env   *Env
@@ -883,7 +896,7 @@ func (g *FuncGen) setupCells() {
 			if a, ok := in.(*ssa.Alloc); ok && !a.Heap {
 				n++
 				et := deref(a.Type())
-				key := fmt.Sprintf("cell:%s#%d", a.Comment, n)
+				key := fmt.Sprintf("cell:%s%s#%d", g.cellPrefix, a.Comment, n)
 				g.cellOf[a] = key
 				g.cellSort[key] = g.sc.sortOf(et)
 				g.cellType[key] = et
@@ -965,6 +978,10 @@ func (g *FuncGen) execBlock(b *ssa.BasicBlock) {
 	if b.Index == 0 {
 		g.reach[0] = "true"
 		g.guard = "true"
+		if g.baseGuard != "" {
+			g.reach[0] = g.baseGuard
+			g.guard = g.baseGuard
+		}
 	} else {
 		var fwd []*ssa.BasicBlock
 		for _, p := range b.Preds {
@@ -1289,4 +1306,128 @@ func (g *FuncGen) applyRecordedNames() {
 			}
 		}
 	}
+}
+
+// inlinable reports whether an uncontracted module function can be executed in place at a call site: straight-line
+// or branching code without loops, defers, goroutines or selects, and small.
+func inlinable(fn *ssa.Function) bool {
+	if fn == nil || len(fn.Blocks) == 0 || fn.Recover != nil {
+		if os.Getenv("DVC_DEBUG") != "" {
+			fmt.Fprintf(os.Stderr, "inlinable: nil/blocks/recover %v\n", fn != nil && fn.Recover != nil)
+		}
+		return false
+	}
+	n := 0
+	for _, b := range fn.Blocks {
+		for _, s := range b.Succs {
+			if s.Dominates(b) {
+				if os.Getenv("DVC_DEBUG") != "" {
+					fmt.Fprintf(os.Stderr, "inlinable: back edge %d -> %d\n", b.Index, s.Index)
+				}
+				return false // a loop
+			}
+		}
+		for _, in := range b.Instrs {
+			n++
+			switch in.(type) {
+			case *ssa.Defer, *ssa.Go, *ssa.Select, *ssa.MakeClosure:
+				if os.Getenv("DVC_DEBUG") != "" {
+					fmt.Fprintf(os.Stderr, "inlinable: instr %T\n", in)
+				}
+				return false
+			}
+		}
+	}
+	return n <= 120
+}
+
+// inlineCall executes an uncontracted module callee in place (instead of havocking everything it might touch): the
+// callee's own safety obligations are generated in the caller's context, its effects are exactly its code's.
+func (g *FuncGen) inlineCall(callee *ssa.Function, args []string, sig *types.Signature, v ssa.Value) bool {
+	if g.inlineDepth >= 2 || callee == g.fn || !inlinable(callee) || len(args) != len(callee.Params) {
+		if os.Getenv("DVC_DEBUG") != "" {
+			fmt.Fprintf(os.Stderr, "not inlining %s: depth=%d inlinable=%v args=%d params=%d\n", callee.Name(), g.inlineDepth, inlinable(callee), len(args), len(callee.Params))
+		}
+		return false
+	}
+	g.inlineCount++
+	var rets []inlineRet
+	ch := &FuncGen{env: g.env, fn: callee, key: g.key, c: nil, spec: g.spec, sc: g.sc,
+		vals: map[ssa.Value]string{}, tups: map[ssa.Value][]string{}, addrs: map[ssa.Value]*Addr{},
+		cellSort: g.cellSort, cellType: g.cellType, cellOf: map[*ssa.Alloc]string{}, cellName: map[string][]*ssa.Alloc{},
+		in: map[int]*State{}, out: map[int]*State{}, reach: map[int]string{}, edges: map[[2]int]string{},
+		loops: map[int]*loopInfo{}, oblN: g.oblN, assumptions: g.assumptions, interior: g.interior, nilChecked: map[string]*ssa.BasicBlock{},
+		cellPrefix: fmt.Sprintf("%sinl%d:", g.cellPrefix, g.inlineCount), inlineDepth: g.inlineDepth + 1, inlineRets: &rets, baseGuard: g.guard,
+		props: g.props, entry: g.entry, items: g.items, obls: g.obls, warnings: g.warnings, guard: g.guard, st: g.st}
+	if g.c != nil && (g.c.NoSafety || g.c.Opts["restriction_only"] != "") {
+		ch.c = &Contract{Key: g.key, NoSafety: g.c.NoSafety, Opts: map[string]string{"restriction_only": g.c.Opts["restriction_only"], "noframe": "true"}, Loops: map[int]*LoopSpec{}}
+	}
+	for i, p := range callee.Params {
+		ch.vals[p] = args[i]
+	}
+	// transactional: a callee that leaves the supported subset is not inlined (the caller falls back to havoc)
+	n0i, n0o, st0 := len(g.items), len(g.obls), g.st.clone()
+	okRun := func() (ok bool) {
+		defer func() {
+			if r := recover(); r != nil {
+				if _, isU := r.(unsupported); isU {
+					ok = false
+					return
+				}
+				panic(r)
+			}
+		}()
+		ch.analyzeCFG()
+		ch.setupCells()
+		for _, b := range ch.order {
+			ch.execBlock(b)
+		}
+		return true
+	}()
+	if !okRun {
+		g.items, g.obls, g.st = g.items[:n0i], g.obls[:n0o], st0
+		return false
+	}
+	g.items, g.obls, g.warnings = ch.items, ch.obls, ch.warnings
+	if len(rets) == 0 {
+		// the callee never returns normally on this path
+		g.assume("false")
+		return true
+	}
+	// merge the returns
+	st := rets[len(rets)-1].st
+	vals := append([]string{}, rets[len(rets)-1].vals...)
+	for i := len(rets) - 2; i >= 0; i-- {
+		r := rets[i]
+		merged := &State{m: map[string]string{}}
+		keys := map[string]bool{}
+		for k := range st.m {
+			keys[k] = true
+		}
+		for k := range r.st.m {
+			keys[k] = true
+		}
+		for _, k := range sortedKeys(keys) {
+			a, b := g.get(r.st, k), g.get(st, k)
+			if a == b {
+				merged.m[k] = a
+			} else {
+				merged.m[k] = g.defState(k, fmt.Sprintf("(ite %s %s %s)", r.guard, a, b))
+			}
+		}
+		st = merged
+		for j := range vals {
+			if r.vals[j] != vals[j] {
+				vals[j] = fmt.Sprintf("(ite %s %s %s)", r.guard, r.vals[j], vals[j])
+			}
+		}
+	}
+	g.st = st
+	res := make([]string, len(vals))
+	for j, t := range vals {
+		res[j] = g.def("inlres", g.sc.sortOf(sig.Results().At(j).Type()), t)
+	}
+	g.bindResults(sig, v, res)
+	g.assumptions["uncontracted module callee "+calleeKey(callee)+" (called from "+g.key+") is executed in place (inlined)"] = true
+	return true
 }
